@@ -19,6 +19,10 @@
 //!   return the peer's plaintext);
 //! A fourth family lets the writer remove `x` and then `y` (two flags each: "started" and
 //! "returned"): an operation that ended before the channel's removal started must succeed.
+//! Script families (4 sequential, 5 against one reader thread) mix real removals with removals
+//! that remove nothing — `remove` of a never-added or already-removed channel, `remove_if` with
+//! a predicate selecting nothing — before and between the real ones, with reader operations in
+//! between so that cached keys are refreshed.
 //! * at the end: a fresh context for a removed channel cannot be set up, `exists` agrees.
 //! In the sequential `strict` scenarios every failure on a removed channel must be exactly
 //! not-found (the concurrent scenarios accept `KeyExpired` from a context that has already
@@ -379,6 +383,285 @@ fn shapes(backend: &str, family: i64, max_len: usize) -> Vec<Shape> {
     out
 }
 
+
+// ------------------------------------------------------------------------------------------
+// Script families: writer scripts that mix real removals with removals that remove nothing
+// ------------------------------------------------------------------------------------------
+
+/// One step of a script. Writer steps: `N` remove(an id that was never added), `I`
+/// remove_if(a predicate that selects nothing), `X` remove(x), `J` remove_if(id == x),
+/// `Y` remove(y), `C` remove_all; a repeated `X` / `J` / `Y` removes an already-removed channel.
+/// Reader steps (sequential family only): `x` / `y` operate through the cached context.
+#[derive(Clone, Copy, Debug, PartialEq, Eq)]
+pub enum Step {
+    RemoveMissing,
+    RemoveIfNone,
+    RemoveX,
+    RemoveIfX,
+    RemoveY,
+    RemoveAll,
+    ReadX,
+    ReadY,
+}
+
+impl Step {
+    fn letter(self) -> char {
+        match self {
+            Step::RemoveMissing => 'N',
+            Step::RemoveIfNone => 'I',
+            Step::RemoveX => 'X',
+            Step::RemoveIfX => 'J',
+            Step::RemoveY => 'Y',
+            Step::RemoveAll => 'C',
+            Step::ReadX => 'x',
+            Step::ReadY => 'y',
+        }
+    }
+    fn removes_x(self) -> bool {
+        matches!(self, Step::RemoveX | Step::RemoveIfX | Step::RemoveAll)
+    }
+    fn removes_y(self) -> bool {
+        matches!(self, Step::RemoveY | Step::RemoveAll)
+    }
+    fn is_reader(self) -> bool {
+        matches!(self, Step::ReadX | Step::ReadY)
+    }
+}
+
+fn show_steps(p: &[Step]) -> String {
+    p.iter().map(|s| s.letter()).collect()
+}
+
+/// The main thread executes `script` in order. With `reader_prog == None` the reader steps of
+/// the script run in the main thread too (sequential);
+/// otherwise the script's writer steps race a reader thread running `reader_prog`.
+fn script_body<B: Backend>(dir: Dir, x_first: bool, script: &[Step], reader_prog: Option<&[ROp]>) {
+    let rng = DetRng::new(1);
+    let spec_x = Arc::new(ChanSpec::new(&rng, dir));
+    let spec_y = Arc::new(ChanSpec::new(&rng, dir));
+    let (w, mut readers) = B::create(3, 2);
+    let (x, y) = if x_first {
+        let x = B::add(&w, &spec_x).expect("add x");
+        (x, B::add(&w, &spec_y).expect("add y"))
+    } else {
+        let y = B::add(&w, &spec_y).expect("add y");
+        (B::add(&w, &spec_x).expect("add x"), y)
+    };
+    let checker = readers.pop().expect("checker handle");
+    let reader = readers.pop().expect("reader handle");
+    let fx = script.iter().any(|s| s.removes_x()).then(Flags::new);
+    let fy = script.iter().any(|s| s.removes_y()).then(Flags::new);
+    let hx = setup(&reader, x, dir, fx.clone());
+    let hy = setup(&reader, y, dir, fy.clone());
+    let mut side = Some((reader, hx, hy));
+
+    let join = reader_prog.map(|prog| {
+        let prog = prog.to_vec();
+        let (reader, mut hx, mut hy) = side.take().expect("reader side");
+        let (sx, sy) = (Arc::clone(&spec_x), Arc::clone(&spec_y));
+        thread::spawn(move || {
+            let mut log = Vec::new();
+            for op in prog {
+                log.push(match op {
+                    ROp::X => run_op(&reader, &mut hx, &sx, 'x', false),
+                    ROp::Y => run_op(&reader, &mut hy, &sy, 'y', false),
+                });
+            }
+            log.join(",")
+        })
+    });
+
+    let mut x_gone = false;
+    let mut y_gone = false;
+    let mut log = Vec::new();
+    for step in script {
+        if step.is_reader() {
+            if let Some((reader, hx, hy)) = side.as_mut() {
+                log.push(match step {
+                    // the error *kind* after a first not-found is judged by family 0 only (a
+                    // known finding there must not stop this sweep)
+                    Step::ReadX => run_op(reader, hx, &spec_x, 'x', false),
+                    _ => run_op(reader, hy, &spec_y, 'y', false),
+                });
+            }
+            continue;
+        }
+        stats::op();
+        let first_x = step.removes_x() && !x_gone;
+        let first_y = step.removes_y() && !y_gone;
+        if first_x {
+            fx.as_ref().expect("flags").started.store(true, Ordering::SeqCst);
+        }
+        if first_y {
+            fy.as_ref().expect("flags").started.store(true, Ordering::SeqCst);
+        }
+        stats::event(format!("writer: {} starts", step.letter()));
+        let r = match step {
+            Step::RemoveMissing => w.remove(LocalChannelId::new(1_000_000)),
+            Step::RemoveIfNone => w.remove_if(|_| false),
+            Step::RemoveX => w.remove(x),
+            Step::RemoveIfX => w.remove_if(|p| p.local_channel_id == x),
+            Step::RemoveY => w.remove(y),
+            Step::RemoveAll => w.remove_all(),
+            Step::ReadX | Step::ReadY => unreachable!(),
+        };
+        if let Err(e) = r {
+            oracle_fail!("removal failed: {e}");
+        }
+        stats::event(format!("writer: {} returned", step.letter()));
+        if first_x || first_y {
+            stats::count("script_real_removal");
+        } else if matches!(step, Step::RemoveMissing | Step::RemoveIfNone) {
+            stats::count("script_removal_of_nothing");
+        } else {
+            stats::count("script_removal_of_already_removed_channel");
+        }
+        if first_x {
+            x_gone = true;
+            fx.as_ref().expect("flags").returned.store(true, Ordering::SeqCst);
+        }
+        if first_y {
+            y_gone = true;
+            fy.as_ref().expect("flags").returned.store(true, Ordering::SeqCst);
+        }
+    }
+    if let Some(j) = join {
+        log.push(j.join().expect("reader panicked"));
+    }
+    for (id, gone, what) in [(x, x_gone, "x"), (y, y_gone, "y")] {
+        let exists = checker.state().exists(id).expect("exists");
+        if exists != w.exists(id).expect("exists") {
+            oracle_fail!("reader and writer disagree on exists({what})");
+        }
+        if gone && exists {
+            oracle_fail!("{what} still exists after its removal returned");
+        }
+        if !gone && !exists {
+            oracle_fail!("{what} disappeared although it was not removed");
+        }
+    }
+    drop(side);
+    drop(w);
+    drop(checker);
+    B::destroy();
+    stats::outcome(log.join(" | "));
+}
+
+fn step_sequences(alphabet: &[Step], max_len: usize) -> Vec<Vec<Step>> {
+    let mut out = Vec::new();
+    fn rec(cur: &mut Vec<Step>, alphabet: &[Step], max_len: usize, out: &mut Vec<Vec<Step>>) {
+        if !cur.is_empty() {
+            out.push(cur.clone());
+        }
+        if cur.len() == max_len {
+            return;
+        }
+        for s in alphabet {
+            cur.push(*s);
+            rec(cur, alphabet, max_len, out);
+            cur.pop();
+        }
+    }
+    rec(&mut Vec::new(), alphabet, max_len, &mut out);
+    out
+}
+
+/// family 4: sequential scripts of length <= `max_len` over the whole alphabet (reader steps
+/// included) that contain a removal that removes nothing (or removes an already-removed
+/// channel), a real removal, and a reader step after the first writer step.
+/// family 5: writer scripts of length <= `max_len` over {N, I, X, Y} (thorough: + J) with at
+/// least one real removal and one removal of nothing, against one reader thread running a
+/// program of length <= 3 that operates on some channel at least twice.
+fn script_scenarios(backend: i64, family: i64, max_len: usize, wide: bool) -> Vec<Scenario> {
+    let bname = if backend == 0 { "shm" } else { "memory" };
+    let mut out = Vec::new();
+    let has_noop = |p: &[Step]| {
+        let mut xg = false;
+        let mut yg = false;
+        let mut noop = false;
+        for s in p {
+            match s {
+                Step::RemoveMissing | Step::RemoveIfNone => noop = true,
+                Step::RemoveX | Step::RemoveIfX => {
+                    noop |= xg;
+                    xg = true;
+                }
+                Step::RemoveY => {
+                    noop |= yg;
+                    yg = true;
+                }
+                Step::RemoveAll => {
+                    noop |= xg && yg;
+                    xg = true;
+                    yg = true;
+                }
+                _ => {}
+            }
+        }
+        noop
+    };
+    let has_real = |p: &[Step]| p.iter().any(|s| s.removes_x() || s.removes_y());
+    for dir in [Dir::Seal, Dir::Open] {
+        for x_first in [true, false] {
+            if !wide && !x_first {
+                continue;
+            }
+            if family == 4 {
+                let mut alphabet = vec![Step::RemoveMissing, Step::RemoveIfNone, Step::RemoveX, Step::RemoveY, Step::ReadX, Step::ReadY];
+                if wide {
+                    alphabet.extend([Step::RemoveIfX, Step::RemoveAll]);
+                }
+                for p in step_sequences(&alphabet, max_len) {
+                    let first_w = p.iter().position(|s| !s.is_reader());
+                    let reader_after = first_w.is_some_and(|i| p[i..].iter().any(|s| s.is_reader()));
+                    if !(has_noop(&p) && has_real(&p) && reader_after) {
+                        continue;
+                    }
+                    let name = format!("c41 {bname} script {} {} order={}", show_steps(&p), if dir == Dir::Seal { "seal" } else { "open" }, if x_first { "x,y" } else { "y,x" });
+                    out.push(if backend == 0 {
+                        Scenario::new(name, move || script_body::<Shm>(dir, x_first, &p, None))
+                    } else {
+                        Scenario::new(name, move || script_body::<Mem>(dir, x_first, &p, None))
+                    });
+                }
+            } else {
+                let mut alphabet = vec![Step::RemoveMissing, Step::RemoveIfNone, Step::RemoveX, Step::RemoveY];
+                if wide {
+                    alphabet.push(Step::RemoveIfX);
+                }
+                let rprogs: Vec<Vec<ROp>> = programs(3)
+                    .into_iter()
+                    .filter(|p| {
+                        let xs = p.iter().filter(|o| **o == ROp::X).count();
+                        xs >= 2 || p.len() - xs >= 2
+                    })
+                    .collect();
+                for p in step_sequences(&alphabet, max_len) {
+                    if !(has_noop(&p) && has_real(&p)) {
+                        continue;
+                    }
+                    for rp in &rprogs {
+                        let name = format!(
+                            "c41 {bname} writer script {} vs reader [{}] {} order={}",
+                            show_steps(&p),
+                            rp.iter().map(|o| if *o == ROp::X { 'x' } else { 'y' }).collect::<String>(),
+                            if dir == Dir::Seal { "seal" } else { "open" },
+                            if x_first { "x,y" } else { "y,x" }
+                        );
+                        let (p, rp) = (p.clone(), rp.clone());
+                        out.push(if backend == 0 {
+                            Scenario::new(name, move || script_body::<Shm>(dir, x_first, &p, Some(&rp)))
+                        } else {
+                            Scenario::new(name, move || script_body::<Mem>(dir, x_first, &p, Some(&rp)))
+                        });
+                    }
+                }
+            }
+        }
+    }
+    out
+}
+
 /// params: [backend (0 shm, 1 memory), family (0 strict sequential | 1 one reader | 2 two readers | 3 two removals),
 ///          max program length (family 1), shard, shards]
 pub fn scenarios(params: &[i64]) -> Vec<Scenario> {
@@ -388,6 +671,15 @@ pub fn scenarios(params: &[i64]) -> Vec<Scenario> {
     let shard = params.get(3).copied().unwrap_or(0) as usize;
     let shards = params.get(4).copied().unwrap_or(1).max(1) as usize;
     let bname = if backend == 0 { "shm" } else { "memory" };
+    if family >= 4 {
+        // families 4/5: `family` 4 | 5 narrow alphabet, 14 | 15 wide alphabet and both orders
+        return script_scenarios(backend, family % 10, max_len, family >= 10)
+            .into_iter()
+            .enumerate()
+            .filter(|(i, _)| i % shards == shard)
+            .map(|(_, s)| s)
+            .collect();
+    }
     shapes(bname, family, max_len)
         .into_iter()
         .enumerate()
